@@ -86,6 +86,9 @@ def read_config_file(path, error_out=None):
                     if val < 0:
                         printerr(f"WARNING: expecting non-negative value for config variable '{name}'.")
                         continue
+                    if val > 2**31 - 1:
+                        printerr(f"WARNING: value too large for config variable '{name}'.")
+                        continue
                 if prop.boolean:
                     if val == "true":
                         val = True
